@@ -89,7 +89,7 @@ BOUNDS = {
                           'whole observation (+ every pair of cells for <=6 rows)',
               'fills': 'generic float fill + integer fill (complete data)',
               'layout/dtype variants': 'F order on every third case (rotating through configurations and masks), int64 C/F + F on every integer-fill case'},
-    'thorough': {'n_obs': '1..6, every set partition (278); n=6: masks of <=1 cell + whole',
+    'thorough': {'n_obs': '1..6, every set partition (278); n=6: masks of <=2 cells (P=2) / <=1 cell (P=3) + whole',
                  'n_channel': '2, 3 (+4 for n<=4)',
                  'fold_partitions': 'n<=4 with all masks, n=5 with <=1 cell + whole',
                  'balanced': 'K,M in {2,3,4} (R=1), {2,3} (R=2); pairs of cells for <=9 rows',
@@ -264,8 +264,7 @@ def _cls(case, crossval):
         return 'method=correlation,missing-channel'
     if case['prec'] == 'spd' and nan and method in ('mahalanobis', 'crossnobis'):
         return 'precision,missing-channel'
-    fold = 'fold' if _has_fold(case) else 'no-fold'
-    return 'method=%s,%s,%s' % (method, fold, 'missing-channel' if nan else 'complete')
+    return 'method=%s,%s' % (method, 'missing-channel' if nan else 'complete')
 
 
 def _helper_cls(case):
@@ -276,11 +275,6 @@ def _helper_cls(case):
     if case['prec'] == 'spd' and nan and method in ('mahalanobis', 'crossnobis'):
         return 'precision,missing-channel'
     return 'method=%s,%s' % (method, 'missing-channel' if nan else 'complete')
-
-
-def _has_fold(case):
-    d = case['design']
-    return d['type'] == 'bal' or d.get('fold') is not None
 
 
 def _oob_class(case):
@@ -569,7 +563,11 @@ def _run_structured(case, ctx):
     mask = case['mask']
     has_nan = bool(mask)
     if _oob_class(case) and not (EXPLORE_OOB or (case.get('probe') and IN_CHILD)):
-        ctx.count('%s: precision + missing channel (compiled kernel reads past its buffer)' % KNOWN_SKIP)
+        ctx.count(KNOWN_SKIP)
+        ctx.note(KNOWN_SKIP, 'configuration class precision + missing channel (mahalanobis / crossnobis with a '
+                 'precision matrix and at least one NaN cell): the compiled kernel reads past a heap buffer; '
+                 'executed only in the child process of shard oob_probe (counters.executed_in_child_process), '
+                 'the count of generated-but-skipped cases is counters.%s' % KNOWN_SKIP)
         return
     lab_eff = list(range(n)) if labels is None else labels
     crossval = ref.crossvalidated(method, folds)
